@@ -83,6 +83,10 @@ func (c *Client) handlePacket(p pk.Packet) (err error) {
 			return PacketHandlerError{ID: packetID, Err: err}
 		}
 	}
+	if packetID < 0 || int(packetID) >= len(c.Events.handlers) {
+		// an id outside the table: nobody can have registered for it
+		return
+	}
 	for _, handler := range c.Events.handlers[packetID] {
 		err = handler.F(p)
 		if err != nil {
